@@ -13,6 +13,7 @@ import CssVerif.Driver.SelOps
 import CssVerif.Driver.UptoOps
 import CssVerif.Driver.ImportOps
 import CssVerif.Driver.LinkOps
+import CssVerif.Driver.OwnOps
 import CssVerif.Driver.UrlOps
 import CssVerif.Driver.EscOps
 import CssVerif.Driver.ValueOps
@@ -64,6 +65,7 @@ def step (line : String) : String :=
   | ["urlpath", b, r] => ImportOps.opUrlPath b r
   | ["rfcpath", m] => ImportOps.opRfcPath m
   | ["tree", fx, n, hist] => LinkOps.run fx n hist
+  | ["own", roots, hist] => OwnOps.run roots hist
   | ["urlrt", u] => UrlOps.opUrlRt u
   | ["urltrav", t] => UrlOps.opUrlTrav t
   | ["escall", e, t] => EscOps.opEscAll e t
